@@ -7,6 +7,7 @@ A unit template (contracts/<unit>.vt) is Verus text with directive blocks:
   //@type <file> | <name>                         copy a struct/enum declaration
   //@fn <file> | <container-regex> | <fn name> [| closure <k>]
   //@header <text>                                (closures only) replacement header
+  //@forbid <regex> :: <why>                       the function is lost (undecided) if the regex still matches the rewritten body
   //@props C01 C02
   //@ghost <params>                               appended to the parameter list
   //@ret <name>                                   name the return value
@@ -127,6 +128,7 @@ class FnSpec:
         self.attrs = []
         self.mutself = False
         self.canary_inplace = False
+        self.forbid = []
         self.binds = []   # (NAME, regex with one group): names of locals taken from the source text
         self.key = None
         self.src_span = None
@@ -362,6 +364,9 @@ class Unit:
             elif word == 'lcalls':
                 names, toks = rest.split('+=')
                 spec.lcalls.append(([x.strip() for x in names.split(',')], toks.strip())); cur = None
+            elif word == 'forbid':
+                rx, _, why = rest.partition('::')
+                spec.forbid.append((re.compile(rx.strip(), re.S), why.strip() or 'construct the model cannot interpret')); cur = None
             elif word == 'nocalls':
                 spec.nocalls += [x.strip() for x in rest.split(',')]; cur = None
             else:
@@ -581,6 +586,11 @@ class Unit:
         for l in log:
             l['fn'] = spec.key
         gen.rewrite_log += log
+        for (frx, fwhy) in spec.forbid:
+            code_only = ''.join(c if m_ else ' ' for c, m_ in zip(body, code_mask(body)))
+            fm = frx.search(code_only)
+            if fm:
+                raise Undecided('unsupported: %s (%s) in %s' % (fwhy, ' '.join(fm.group(0).split())[:60], spec.key))
         bad = unmodelled_guard_write(body)
         if bad:
             # a write through a mutex guard is invisible to Verus unless a rewrite rule (R6) turned it into a call of a
